@@ -59,6 +59,8 @@ pub struct Args {
     pub miri: bool,
     pub build: &'static str,
     pub replay: Option<String>,
+    /// run only shard i of n (single-threaded); used to spread a Miri workload over processes
+    pub shard: Option<(u64, u64)>,
 }
 
 fn parse_args() -> Args {
@@ -71,6 +73,7 @@ fn parse_args() -> Args {
         miri: cfg!(miri),
         build: if cfg!(debug_assertions) { "dev" } else { "release" },
         replay: None,
+        shard: None,
     };
     let mut it = std::env::args().skip(1);
     while let Some(x) = it.next() {
@@ -79,6 +82,13 @@ fn parse_args() -> Args {
             "--seed" => a.seed = it.next().and_then(|s| s.parse().ok()).unwrap_or(1),
             "--out" => a.out = it.next().unwrap_or_default(),
             "--threads" => a.threads = it.next().and_then(|s| s.parse().ok()).unwrap_or(1),
+            "--shard" => {
+                let v = it.next().unwrap_or_default();
+                let mut p = v.split('/');
+                let i = p.next().and_then(|x| x.parse().ok()).unwrap_or(0);
+                let n = p.next().and_then(|x| x.parse().ok()).unwrap_or(1);
+                a.shard = Some((i, n));
+            }
             "--miri" => a.miri = true,
             "--replay" => a.replay = it.next(),
             p if !p.starts_with("--") => a.prop = p.to_string(),
@@ -145,7 +155,9 @@ fn main() {
     let n = args.threads as u64;
     let done = std::sync::Arc::new(AtomicBool::new(false));
     let mut total = Report::new();
-    if n == 1 {
+    if let Some((i, k)) = args.shard {
+        total = f(&args, i, k.max(1));
+    } else if n == 1 {
         total = f(&args, 0, 1);
     } else {
         let handles: Vec<_> = (0..n)
